@@ -153,6 +153,8 @@ func (g *p2pRig) admissionVerdicts() {
 			if c.expect == "admit" && !refused {
 				c.admittedLive = true
 				g.admitted[host] = append(g.admitted[host], c)
+			} else if c.expect == "refuse-total" {
+				r.Probe("total-limit-hit")
 			} else if c.expect == "refuse-per-host" {
 				r.Probe("per-host-limit-hit")
 			} else if c.expect == "refuse-banned" {
